@@ -94,3 +94,20 @@ Ltac table_tac :=
          | H0 : context [Qmin ?a ?b] |- _ => split_min a b
          end;
   lra.
+
+(* ---- argument guards (obligations G5): "raises ValueError" as a boolean over the natural-number arguments ---- *)
+Definition hyper_guard (x N n G : nat) : bool := Nat.ltb n x || Nat.ltb N n || Nat.ltb N G || Nat.ltb G x.
+Definition binom_guard (x n : nat) : bool := Nat.ltb n x.
+Lemma hyper_guard_is_model x N n G a : hyper_guard x N n G = true <-> hypergeometric x N n G a = Err ValueError.
+Proof.
+  unfold hyper_guard, hypergeometric.
+  destruct (Nat.ltb n x); [cbn; tauto|]. destruct (Nat.ltb N n); [cbn; tauto|].
+  destruct (Nat.ltb N G); [cbn; tauto|]. destruct (Nat.ltb G x); cbn; split; intros H; try discriminate; tauto.
+Qed.
+Lemma binom_guard_is_model x n pa pb a : binom_guard x n = true <-> binomial_p x n pa pb a = Err ValueError.
+Proof. unfold binom_guard, binomial_p. destruct (Nat.ltb n x); cbn; split; intros H; try discriminate; tauto. Qed.
+From Coq Require Import Lia.
+Ltac guard_tac :=
+  cbv beta delta [hyper_guard binom_guard];
+  apply Bool.eq_true_iff_eq;
+  repeat rewrite Bool.orb_true_iff; repeat rewrite Nat.ltb_lt; repeat rewrite Nat.leb_le; lia.
